@@ -19,6 +19,358 @@ CONTIGS = [['chr1', 1000], ['chr2', 800], ['chrUn_alt', 500]]
 CIGARS = ['20M', '20M', '20M', '5S15M', '10M2I8M', '10M3D10M', '3S7M1I5M2D4M', '20M5S', '10M100N10M', '4H16M', '1M']
 
 
+# ----------------------------------------------------------------------------- T (source translator)
+import ast, hashlib
+import py2coq
+from py2coq import Untranslatable
+
+SRC = 'singlecellmultiomics/bamProcessing/bamToCountTable.py'
+ARG_BOOL = {'r1only': 'o_r1only', 'r2only': 'o_r2only', 'filterMP': 'o_filterMP', 'proper_pairs_only': 'o_proper',
+            'no_indels': 'o_no_indels', 'no_softclips': 'o_no_softclips', 'filterXA': 'o_filterXA', 'dedup': 'o_dedup',
+            'doNotDivideFragments': 'o_no_divide', 'divideMultimapping': 'o_div_multi'}
+READ_BOOL = {'is_read1': 'read1', 'is_read2': 'read2', 'is_paired': 'paired', 'is_unmapped': 'unmapped',
+             'mate_is_unmapped': 'mate_unmapped', 'is_qcfail': 'qcfail', 'is_duplicate': 'dup', 'is_proper_pair': 'proper'}
+CIGOP = {c: i for i, c in enumerate('MIDNSHP=X')}
+# option attributes the model's [opts] record represents (an assignment to one of them inside the package is state
+# carried from one call to the next)
+MODELLED_ARGS = ['r1only', 'r2only', 'filterMP', 'minMQ', 'proper_pairs_only', 'no_indels', 'max_base_edits', 'no_softclips',
+                 'filterXA', 'dedup', 'blacklist', 'doNotDivideFragments', 'divideMultimapping', 'featureTags',
+                 'joinedFeatureTags', 'byValue', 'splitFeatures', 'featureDelimiter', 'sampleTags', 'contig', 'bedfile',
+                 'alignmentfiles', 'bin', 'binTag', 'head']
+
+
+def codes(s):
+    return '[' + '; '.join(str(ord(c)) for c in s) + ']'
+
+
+class FilterTr:
+    """expressions of read_should_be_counted / assignReads -> Gallina over the model's read / opts records.
+    kinds: 'b' bool, 'rb' res bool, 'z' Z, 'rz' res Z.  Anything unrecognised raises Untranslatable."""
+
+    def fail(self, n, why):
+        raise Untranslatable('%s at line %s: %s' % (why, getattr(n, 'lineno', '?'), ast.unparse(n)[:120]))
+
+    @staticmethod
+    def is_attr(n, base, attr=None):
+        return (isinstance(n, ast.Attribute) and isinstance(n.value, ast.Name) and n.value.id == base
+                and (attr is None or n.attr == attr))
+
+    def strlit(self, n):
+        if isinstance(n, ast.Constant) and isinstance(n.value, str):
+            return n.value
+        self.fail(n, 'string literal expected')
+
+    def get_tag_arg(self, n):
+        """read.get_tag('XX') -> 'XX'"""
+        if (isinstance(n, ast.Call) and self.is_attr(n.func, 'read', 'get_tag') and len(n.args) == 1 and not n.keywords):
+            return self.strlit(n.args[0])
+        return None
+
+    def lift_b(self, kt):
+        k, t = kt
+        return t if k == 'rb' else '(Ok %s)' % t
+
+    def lift_z(self, kt):
+        k, t = kt
+        return t if k == 'rz' else '(Ok %s)' % t
+
+    def e(self, n):
+        if isinstance(n, ast.BoolOp):
+            parts = [self.e(v) for v in n.values]
+            if any(k not in ('b', 'rb') for k, _ in parts):
+                self.fail(n, 'non-boolean operand')
+            if all(k == 'b' for k, _ in parts):
+                return 'b', '(' + (' && ' if isinstance(n.op, ast.And) else ' || ').join(t for _, t in parts) + ')'
+            f = 'rand' if isinstance(n.op, ast.And) else 'ror'
+            out = self.lift_b(parts[-1])
+            for p in reversed(parts[:-1]):
+                out = '(%s %s %s)' % (f, self.lift_b(p), out)
+            return 'rb', out
+        if isinstance(n, ast.UnaryOp) and isinstance(n.op, ast.Not):
+            k, t = self.e(n.operand)
+            if k == 'b':
+                return 'b', '(negb %s)' % t
+            if k == 'rb':
+                return 'rb', '(rnot %s)' % t
+            self.fail(n, 'not of a non-boolean')
+        if isinstance(n, ast.Attribute):
+            if self.is_attr(n, 'args') and n.attr in ARG_BOOL:
+                return 'b', '(%s o)' % ARG_BOOL[n.attr]
+            if self.is_attr(n, 'read') and n.attr in READ_BOOL:
+                return 'b', '(%s r)' % READ_BOOL[n.attr]
+            if self.is_attr(n, 'read', 'mapping_quality'):
+                return 'z', '(mapq r)'
+            if self.is_attr(n, 'args', 'minMQ'):
+                return 'z', '(o_minMQ o)'
+            if self.is_attr(n, 'args', 'max_base_edits'):
+                return 'rz', '(oz (o_max_edits o))'
+            self.fail(n, 'attribute outside the vocabulary')
+        if isinstance(n, ast.Constant) and isinstance(n.value, bool):
+            return 'b', 'true' if n.value else 'false'
+        if isinstance(n, ast.Constant) and isinstance(n.value, int):
+            return 'z', '(%d)' % n.value
+        if isinstance(n, ast.Call):
+            if self.is_attr(n.func, 'read', 'has_tag') and len(n.args) == 1 and not n.keywords:
+                return 'b', '(has_tag r %s)' % codes(self.strlit(n.args[0]))
+            if isinstance(n.func, ast.Name) and n.func.id == 'read_has_alternative_hits_to_non_alts' \
+                    and len(n.args) == 1 and ast.unparse(n.args[0]) == 'read' and not n.keywords:
+                return 'rb', '(xa_hit r)'
+            if isinstance(n.func, ast.Name) and n.func.id == 'int' and len(n.args) == 1 and not n.keywords:
+                t = self.get_tag_arg(n.args[0])
+                if t is not None:
+                    return 'rz', '(tag_int r %s)' % codes(t)
+            if isinstance(n.func, ast.Name) and n.func.id == 'len' and len(n.args) == 1 and not n.keywords:
+                a = n.args[0]
+                if (isinstance(a, ast.Call) and isinstance(a.func, ast.Attribute) and a.func.attr == 'split'
+                        and len(a.args) == 1 and not a.keywords):
+                    t = self.get_tag_arg(a.func.value)
+                    if t is not None:
+                        return 'rz', '(tag_split_len r %s %s)' % (codes(t), codes(self.strlit(a.args[0])))
+            self.fail(n, 'call outside the vocabulary')
+        if isinstance(n, ast.Compare) and len(n.ops) == 1:
+            op, l, r = n.ops[0], n.left, n.comparators[0]
+            if isinstance(op, (ast.Is, ast.IsNot)) and isinstance(r, ast.Constant) and r.value is None:
+                if ast.unparse(l) == 'read':
+                    t = 'false'             # a record handed over by pysam is never None
+                elif self.is_attr(l, 'args', 'max_base_edits'):
+                    t = '(negb (opt_is_some (o_max_edits o)))'
+                else:
+                    self.fail(n, 'is None test outside the vocabulary')
+                return 'b', t if isinstance(op, ast.Is) else '(negb %s)' % t
+            if isinstance(op, (ast.In, ast.NotIn)):
+                if self.is_attr(r, 'read', 'cigarstring'):
+                    c = self.strlit(l)
+                    if c not in CIGOP:
+                        self.fail(n, 'not a CIGAR operation letter')
+                    t = '(cig_in r %d)' % CIGOP[c]
+                    return 'rb', t if isinstance(op, ast.In) else '(rnot %s)' % t
+                self.fail(n, 'membership test outside the vocabulary')
+            if isinstance(op, (ast.Eq, ast.NotEq)):
+                t = self.get_tag_arg(l)
+                if t is not None and isinstance(r, ast.Constant) and isinstance(r.value, str):
+                    x = '(tag_eq_str r %s %s)' % (codes(t), codes(r.value))
+                    return 'b', x if isinstance(op, ast.Eq) else '(negb %s)' % x
+            tab = {ast.Lt: ('<?', 'rltb'), ast.LtE: ('<=?', 'rleb'), ast.Gt: ('>?', 'rgtb'), ast.GtE: ('>=?', 'rgeb'),
+                   ast.Eq: ('=?', 'reqb')}
+            for k, (sym, fn) in tab.items():
+                if isinstance(op, k):
+                    a, b = self.e(l), self.e(r)
+                    if a[0] == 'z' and b[0] == 'z':
+                        return 'b', '(%s %s %s)' % (a[1], sym, b[1])
+                    if a[0] in ('z', 'rz') and b[0] in ('z', 'rz'):
+                        return 'rb', '(%s %s %s)' % (fn, self.lift_z(a), self.lift_z(b))
+            self.fail(n, 'comparison outside the vocabulary')
+        self.fail(n, 'expression outside the vocabulary')
+
+
+def _strip_doc(body):
+    if body and isinstance(body[0], ast.Expr) and isinstance(body[0].value, ast.Constant) and isinstance(body[0].value.value, str):
+        return body[1:]
+    return body
+
+
+def translate_guards(path):
+    """read_should_be_counted: a sequence of (possibly nested) `if c: return False`, the blacklist loop, `return True`."""
+    src = open(path).read()
+    fn = py2coq.find_function(ast.parse(src), 'read_should_be_counted')
+    if [a.arg for a in fn.args.args] != ['read', 'args', 'blacklist_dic']:
+        raise Untranslatable('read_should_be_counted: signature changed')
+    tr = FilterTr()
+    guards, ivtest = [], None
+
+    def conj(path_conds, c):
+        allc = path_conds + [c]
+        if all(k == 'b' for k, _ in allc):
+            return '(Ok (' + ' && '.join(t for _, t in allc) + '))' if len(allc) > 1 else '(Ok %s)' % allc[0][1]
+        out = tr.lift_b(allc[-1])
+        for p in reversed(allc[:-1]):
+            out = '(rand %s %s)' % (tr.lift_b(p), out)
+        return out
+
+    def blacklist(st, path_conds):
+        nonlocal ivtest
+        if path_conds or ast.unparse(st.test) != 'blacklist_dic is not None' or st.orelse or len(st.body) != 1:
+            raise Untranslatable('blacklist block: outer test changed')
+        inner = st.body[0]
+        if not (isinstance(inner, ast.If) and ast.unparse(inner.test) == 'read.reference_name in blacklist_dic'
+                and not inner.orelse and len(inner.body) == 1 and isinstance(inner.body[0], ast.For)):
+            raise Untranslatable('blacklist block: contig lookup changed')
+        loop = inner.body[0]
+        if not (ast.unparse(loop.target) == 'startend' and ast.unparse(loop.iter) == 'blacklist_dic[read.reference_name]'
+                and not loop.orelse):
+            raise Untranslatable('blacklist block: loop header changed')
+        env = {'read.reference_start': 'xs', 'read.reference_end': 'xe', 'startend[0]': 's', 'startend[1]': 'e'}
+        et = py2coq.ExprTranslator(env=env)
+        for b in loop.body[:-1]:
+            if not (isinstance(b, ast.Assign) and len(b.targets) == 1 and isinstance(b.targets[0], ast.Name)):
+                raise Untranslatable('blacklist loop: statement outside subset: %s' % ast.unparse(b)[:80])
+            et.env[b.targets[0].id] = et.b(b.value)
+            et.bool_names.add(b.targets[0].id)
+        last = loop.body[-1]
+        if not (isinstance(last, ast.If) and not last.orelse and len(last.body) == 1 and isinstance(last.body[0], ast.Return)
+                and ast.unparse(last.body[0]) == 'return False'):
+            raise Untranslatable('blacklist loop: final test changed')
+        ivtest = et.b(last.test)
+        guards.append(('(bl_hit_with gen_iv_test o r)', st))
+
+    def walk(stmts, path_conds):
+        for st in stmts:
+            if isinstance(st, ast.Expr) and isinstance(st.value, ast.Constant):
+                continue
+            if not isinstance(st, ast.If) or st.orelse:
+                raise Untranslatable('read_should_be_counted: statement outside subset at line %d: %s'
+                                     % (st.lineno, ast.unparse(st)[:80]))
+            if 'blacklist_dic' in ast.unparse(st.test):
+                blacklist(st, path_conds)
+                continue
+            c = tr.e(st.test)
+            if c[0] not in ('b', 'rb'):
+                raise Untranslatable('non-boolean test at line %d' % st.lineno)
+            if len(st.body) == 1 and isinstance(st.body[0], ast.Return):
+                if ast.unparse(st.body[0]) != 'return False':
+                    raise Untranslatable('guard returns something else than False at line %d' % st.lineno)
+                guards.append((conj(path_conds, c), st))
+            else:
+                walk(st.body, path_conds + [c])
+
+    body = _strip_doc(list(fn.body))
+    if not body or ast.unparse(body[-1]) != 'return True':
+        raise Untranslatable('read_should_be_counted does not end in `return True`')
+    walk(body[:-1], [])
+    if ivtest is None:
+        raise Untranslatable('blacklist block not found')
+    seg = ast.get_source_segment(src, fn)
+    sha = hashlib.sha256(seg.encode()).hexdigest()
+    lines = ['(* source: %s lines %d-%d sha256 %s : read_should_be_counted, guards in source order *)'
+             % (SRC, fn.lineno, fn.end_lineno, sha),
+             'Definition gen_iv_test (xs xe s e : Z) : bool :=\n  %s.' % ivtest,
+             'Definition gen_guards (o : opts) (r : read) : list (res bool) :=\n  [ '
+             + ';\n    '.join('%s  (* line %d *)' % (g, st.lineno) for g, st in guards) + ' ].',
+             'Definition gen_should_count (o : opts) (r : read) : res bool := fold_right guard (Ok true) (gen_guards o r).']
+    return '\n'.join(lines), {'source': SRC, 'lines': [fn.lineno, fn.end_lineno], 'sha256': sha, 'coq': 'gen_should_count',
+                               'guards': len(guards)}
+
+
+def translate_weight(path):
+    """assignReads: the statements that assign countToAdd before the key construction."""
+    src = open(path).read()
+    fn = py2coq.find_function(ast.parse(src), 'assignReads')
+    tr = FilterTr()
+    body = list(fn.body)
+    idx = [i for i, st in enumerate(body) if isinstance(st, ast.Assign) and ast.unparse(st.targets[0]) == 'countToAdd']
+    stop = [i for i, st in enumerate(body) if isinstance(st, ast.Assign) and ast.unparse(st.targets[0]) == 'count_increment']
+    if len(idx) != 1 or len(stop) != 1 or not idx[0] < stop[0]:
+        raise Untranslatable('assignReads: weight section not found')
+    section = body[idx[0]:stop[0]]
+
+    def value(n, cur):
+        if isinstance(n, ast.Name) and n.id == 'countToAdd':
+            return cur
+        if isinstance(n, ast.Constant) and n.value in (1, 0.5) and not isinstance(n.value, bool):
+            return '(Ok 1%Q)' if n.value == 1 else '(Ok (1 # 2)%Q)'
+        if isinstance(n, ast.IfExp):
+            c = tr.e(n.test)
+            if c[0] != 'b':
+                raise Untranslatable('weight: test may raise: %s' % ast.unparse(n.test))
+            return '(if %s then %s else %s)' % (c[1], value(n.body, cur), value(n.orelse, cur))
+        if isinstance(n, ast.BinOp) and isinstance(n.op, ast.Div):
+            d = tr.e(n.right)
+            if d[0] not in ('z', 'rz'):
+                raise Untranslatable('weight: divisor outside subset: %s' % ast.unparse(n.right))
+            return '(rdivq %s %s)' % (value(n.left, cur), tr.lift_z(d))
+        raise Untranslatable('weight: value outside subset: %s' % ast.unparse(n)[:80])
+
+    def run(stmts, cur):
+        for st in stmts:
+            if isinstance(st, ast.Assign) and len(st.targets) == 1 and ast.unparse(st.targets[0]) == 'countToAdd':
+                cur = value(st.value, cur)
+            elif isinstance(st, ast.AugAssign) and ast.unparse(st.target) == 'assigned':
+                continue
+            elif isinstance(st, ast.If):
+                c = tr.e(st.test)
+                if c[0] != 'b':
+                    raise Untranslatable('weight: test may raise: %s' % ast.unparse(st.test))
+                cur = '(if %s then %s else %s)' % (c[1], run(st.body, cur), run(st.orelse, cur))
+            elif isinstance(st, ast.Expr) and isinstance(st.value, ast.Constant):
+                continue
+            else:
+                raise Untranslatable('weight: statement outside subset at line %d: %s' % (st.lineno, ast.unparse(st)[:80]))
+        return cur
+
+    expr = run(section, '(Raise 9)')
+    seg = '\n'.join(src.splitlines()[section[0].lineno - 1:section[-1].end_lineno])
+    sha = hashlib.sha256(seg.encode()).hexdigest()
+    text = ('(* source: %s lines %d-%d sha256 %s : assignReads, countToAdd *)\n'
+            'Definition gen_weight (o : opts) (r : read) : res Q :=\n  %s.'
+            % (SRC, section[0].lineno, section[-1].end_lineno, sha, expr))
+    return text, {'source': SRC, 'lines': [section[0].lineno, section[-1].end_lineno], 'sha256': sha, 'coq': 'gen_weight'}
+
+
+def translate_prep(path):
+    """create_count_table: the test that auto-appends the -byValue tag to the joined feature tags, and every
+    assignment to an attribute of args anywhere in the module (state that survives the call)."""
+    src = open(path).read()
+    tree = ast.parse(src)
+    fn = py2coq.find_function(tree, 'create_count_table')
+    hits = [n for n in ast.walk(fn) if isinstance(n, ast.If) and len(n.body) == 1
+            and ast.unparse(n.body[0]) == 'featureTags.append(args.byValue)']
+    if len(hits) != 1 or hits[0].orelse:
+        raise Untranslatable('create_count_table: auto-append of args.byValue not found')
+    test = hits[0].test
+
+    def t(n):
+        u = ast.unparse(n)
+        if isinstance(n, ast.BoolOp) and isinstance(n.op, ast.And):
+            return '(' + ' && '.join(t(v) for v in n.values) + ')'
+        if u == 'args.byValue is not None':
+            return '(opt_is_some (o_byvalue o))'
+        if u in ('len(featureTags) > 0', 'len(featureTags) >= 1'):
+            return '(negb (is_nil ft))'
+        if u == 'args.byValue not in featureTags':
+            return '(negb (opt_mem (o_byvalue o) ft))'
+        raise Untranslatable('create_count_table: auto-append test outside subset: %s' % u)
+    expr = t(test)
+    seg = ast.get_source_segment(src, test)
+    sha = hashlib.sha256(seg.encode()).hexdigest()
+    written = []
+    for n in ast.walk(tree):
+        targets = []
+        if isinstance(n, ast.Assign):
+            targets = n.targets
+        elif isinstance(n, (ast.AugAssign, ast.AnnAssign)):
+            targets = [n.target]
+        elif isinstance(n, ast.Call) and isinstance(n.func, ast.Name) and n.func.id in ('setattr', 'delattr') and n.args \
+                and ast.unparse(n.args[0]) == 'args':
+            raise Untranslatable('setattr/delattr on args at line %d' % n.lineno)
+        for tg in targets:
+            for x in ast.walk(tg):
+                if isinstance(x, ast.Attribute) and isinstance(x.value, ast.Name) and x.value.id == 'args' \
+                        and isinstance(x.ctx, ast.Store) and x.attr not in written:
+                    written.append(x.attr)
+    # statements executed only under `if __name__ == '__main__'` build the namespace; they are not inside a function
+    text = ('(* source: %s line %d sha256 %s\n   %s *)\n'
+            'Definition gen_autoappend (o : opts) (ft : list str) : bool :=\n  %s.\n\n'
+            '(* attributes of args assigned anywhere in the module, and the option attributes the model represents *)\n'
+            'Definition gen_args_written : list str :=\n  [%s].\n'
+            'Definition gen_args_modelled : list str :=\n  [%s].'
+            % (SRC, test.lineno, sha, ' '.join(seg.split()), expr,
+               ';\n   '.join('%s (* %s *)' % (codes(w), w) for w in written),
+               ';\n   '.join('%s (* %s *)' % (codes(w), w) for w in MODELLED_ARGS)))
+    return text, {'source': SRC, 'lines': [test.lineno, test.end_lineno], 'sha256': sha, 'coq': 'gen_autoappend',
+                  'args_written': written}
+
+
+def regen_filter():
+    p = os.path.join(fw.REPO, SRC)
+    chunks, meta = [], []
+    for f in (translate_guards, translate_weight, translate_prep):
+        t, m = f(p)
+        chunks.append(t); meta.append(m)
+    py2coq.write_gen(os.path.join(fw.COQ, 'Gen', 'GenCountFilter.v'),
+                     'From Coq Require Import QArith.\nFrom SCMO Require Import Lib.Val Model.C11.\n', chunks)
+    return meta
+
+
 # ----------------------------------------------------------------------------- encoding for the model
 def opt(x, f=lambda v: v):
     return [] if x is None else [f(x)]
@@ -485,6 +837,9 @@ class Prop(fw.PropBase):
         'int()/float() of tag strings: surrounding ASCII whitespace is modelled; underscores, exponents, inf/nan and '
         'non-ASCII whitespace are not generated',
     ]
+
+    def regen(self):
+        return regen_filter()
 
     # ---------------------------------------------------------------- cases
     def build_cases(self):
